@@ -48,7 +48,7 @@ func zzEnvReset() {
 	}
 	zzTracked = nil
 	if zzSinks == nil {
-		for _, a := range []string{"127.0.0.1:8805", "127.0.0.2:8805"} {
+		for _, a := range []string{"127.0.0.1:8805", "127.0.0.2:8805", "127.0.0.1:8806"} {
 			ua, _ := net.ResolveUDPAddr("udp4", a)
 			c, err := net.ListenUDP("udp4", ua)
 			if err != nil {
